@@ -197,8 +197,10 @@ func (g *tierGate) openAll() {
 
 func init() {
 	checks["C03"] = func(rep *Report, tier string, seed int64) {
-		rep.Rule = "locked L1/L2 stacks (multi- and single-reader mode, main and batch port sharing one lock set): (a) exhaustive schedules: two connections each issue one command (thorough: also 2+1 commands) on the same key, for every pair of command kinds from {set, add, replace, append, prepend, delete, touch, get, gat} with the key initially absent, present in both tiers, or present in L2 only; a gate in the fake backends holds every backend request, and every interleaving of the two connections' backend requests that the key locks admit is executed (stateless exploration: each run's schedule is recorded and every feasible alternative choice is run in turn); (b) seeded random concurrent histories of 3..6 connections x 8 commands over 2 keys without the gate; oracle: the logged lock modes (write lock for every mutating command and get-and-touch, read locks for get), then every history is checked for linearizability against the single-map model per key (porcupine), and when all commands have completed every entry L1 serves must equal L2's entry; distinct = distinct (configuration, command pair, initial state, schedule) / (configuration, history)"
+		rep.Rule = "locked L1/L2 stacks (multi- and single-reader mode, main and batch port sharing one lock set): (a) exhaustive schedules: two connections each issue one command (thorough: also 2+1 commands) on the same key, for every pair of command kinds from {set, add, replace, append, prepend, delete, touch, get, gat} with the key initially absent, present in both tiers, or present in L2 only; a gate in the fake backends holds every backend request, and every interleaving of the two connections' backend requests that the key locks admit is executed (stateless exploration: each run's schedule is recorded and every feasible alternative choice is run in turn); (b) seeded random concurrent histories of 3..6 connections x 8 commands over 2 keys without the gate; oracle: the logged lock modes (write lock for every mutating command and get-and-touch, read locks for get); for pairs whose locks exclude each other (a write lock involved, or single-reader mode) the backend requests must form two blocks and replies and final contents of both tiers must equal the compiled Lean model running the two commands whole in block order (the statement of C03_serializable, replayed); then every history is checked for linearizability against the single-map model per key (porcupine), and when all commands have completed every entry L1 serves must equal L2's entry; distinct = distinct (configuration, command pair, initial state, schedule) / (configuration, history)"
 		distinct := map[string]bool{}
+		drv := StartDriver()
+		defer drv.Close()
 		cfgs := []StackCfg{{Orca: "l1l2", Locked: "mr", Bits: 2, L1: "std"}, {Orca: "l1l2", Locked: "sr", Bits: 3, L1: "std"}}
 		if os.Getenv("VERIF_C03_UNLOCKED") != "" {
 			// sensitivity self-test (not part of the check): without the wrapper the same exploration must find violations
@@ -275,6 +277,11 @@ func init() {
 				var mu sync.Mutex
 				var wg sync.WaitGroup
 				notes := ""
+				type fedOut struct {
+					out    []byte
+					ending string
+				}
+				outs := make([][]fedOut, len(parties))
 				for i, p := range parties {
 					wg.Add(1)
 					go func(i int, p *party) {
@@ -290,6 +297,7 @@ func init() {
 							ops, msg := linOps(i, "bin", c, out, len(binSentinelReply), e, call, ret)
 							mu.Lock()
 							hist = append(hist, ops...)
+							outs[i] = append(outs[i], fedOut{out, e})
 							if msg != "" {
 								notes += fmt.Sprintf("connection %d, %s: %s; ", i, c.Describe(), msg)
 							}
@@ -417,6 +425,83 @@ func init() {
 				}
 				if msg := l1InL2(st, []string{string(key)}); msg != "" {
 					return schedule, true, "after all commands completed: " + msg, replay
+				}
+				// serial replay (theorem C03_serializable): when the two commands exclude each other
+				// (a write lock is involved, or single-reader mode) their backend requests must come
+				// in two blocks, and replies and final contents must be those of the MODEL running
+				// the two commands whole, one after the other, in the order of the blocks
+				gets := 0
+				single := true
+				for _, pr := range progs {
+					if len(pr) != 1 {
+						single = false
+					} else if pr[0].Kind == "get" {
+						gets++
+					}
+				}
+				if single && (cfg.Locked == "sr" || gets < 2) {
+					var order []int
+					seenP := map[int]bool{}
+					last := -1
+					for _, pi := range schedule {
+						if pi == last {
+							continue
+						}
+						if seenP[pi] {
+							replay["blocks"] = schedule
+							return schedule, true, "the backend requests of two commands on one key that hold excluding locks were interleaved", replay
+						}
+						seenP[pi] = true
+						order = append(order, pi)
+						last = pi
+					}
+					for i := range progs {
+						if !seenP[i] {
+							order = append(order, i)
+						}
+					}
+					rep.Distribution["serial-replays"]++
+					drv.Script = nil
+					drv.Send("case C03-serial-replay", 0)
+					drv.Send(connLine(cfg, ConnCfg{ID: "s", Port: "main", Proto: "bin"}), 0)
+					for i := range progs {
+						drv.Send(connLine(cfg, ConnCfg{ID: fmt.Sprintf("p%d", i), Port: ports[i], Proto: "bin"}), 0)
+					}
+					drv.Send(fmt.Sprintf("now %d", st.L1.Now()), 0)
+					if initState > 0 {
+						c := Command{Kind: "set", Key: key, Flags: 1, Data: []byte("init"), Opaque: 1}
+						drv.Send(fmt.Sprintf("feed s %s", hx(append(c.Encode("bin"), binSentinel...))), 4)
+					}
+					if initState == 2 {
+						drv.Send(fmt.Sprintf("evict L1 %s", hx(key)), 0)
+					}
+					for _, pi := range order {
+						if len(outs[pi]) != 1 {
+							continue
+						}
+						c := progs[pi][0]
+						r4 := drv.Send(fmt.Sprintf("feed p%d %s", pi, hx(append(c.Encode("bin"), binSentinel...))), 4)
+						implOut := fmt.Sprintf("out %s %s", canonN(256, outs[pi][0].out), outs[pi][0].ending)
+						if r4[0] != implOut {
+							replay["serial_order"], replay["driver_script"] = order, append([]string{}, drv.Script...)
+							replay["impl_reply"], replay["model_reply"] = implOut, r4[0]
+							return schedule, true, fmt.Sprintf("connection %d (%s) was not answered as in the sequential run of the commands in lock order %v (model): got %s, sequentially %s", pi, c.Describe(), order, implOut, r4[0]), replay
+						}
+					}
+					for _, tf := range []struct {
+						name string
+						f    *fakemc.Server
+					}{{"L1", st.L1}, {"L2", st.L2}} {
+						part := hx(key) + "=-"
+						if it, ok := tf.f.Lookup(string(key)); ok {
+							part = fmt.Sprintf("%s=%d,%d,%s", hx(key), it.Flags, it.Deadline, canon(it.Value))
+						}
+						got := drv.Send(fmt.Sprintf("dump %s %s", tf.name, hx(key)), 1)
+						if want := fmt.Sprintf("dump %s %s", tf.name, part); got[0] != want {
+							replay["serial_order"], replay["driver_script"] = order, append([]string{}, drv.Script...)
+							return schedule, true, fmt.Sprintf("after both commands %s holds %s, the sequential run in lock order %v (model) leaves %s", tf.name, want, order, got[0]), replay
+						}
+					}
 				}
 				return schedule, true, "", replay
 			}
